@@ -13,7 +13,7 @@ import sys,re,json
 id,prop=sys.argv[1],sys.argv[2]
 out='''$(echo "$out" | sed "s/'''/'' '/g" | sed 's/\\/\\\\/g')'''
 rc=re.findall(r'exit=(\d+)',out)
-classes={m[0]:int(m[1]) for m in re.findall(r'class=(%s/[\w-]+) runs=(\d+)'%prop,out)}
+classes={m[0]:int(m[1]) for m in re.findall(r'^  class=(C\d\d/[\w-]+) runs=(\d+)',out,re.M)}
 m=re.search(r'check %s tier=\w+ seed=\d+: (\d+) runs'%prop,out)
 print(json.dumps({"change":id,"property":prop,"exit":int(rc[-1]) if rc else None,"classes":classes,"runs":int(m.group(1)) if m else None,"args":"$*"}))
 PY
